@@ -40,7 +40,7 @@ RULE = ('A: address lists of 0-5 unix/tcp/nonce-tcp/junk entries x per-address '
 STATE_MEASURE = ('A: (attempt outcomes, server script, result kind); B: (calls pending at loss, '
                  'callbacks registered, proxies by kind, loss kind)')
 PROBES = ['A-no-address', 'A-all-refused', 'A-second-address-used', 'A-closed-during-auth',
-          'A-auth-refused', 'A-closed-before-hello-reply', 'A-hello-error', 'A-connected',
+          'A-auth-refused', 'A-closed-before-hello-reply', 'A-hello-error', 'A-connected', 'A-second-connect-same-address',
           'B-loss-with-pending-calls', 'B-loss-with-deadline', 'B-proxy-explicit',
           'B-proxy-introspected', 'B-proxy-by-name', 'B-two-proxies-same-object',
           'B-introspection-in-flight-at-loss', 'B-errback-issues-call', 'B-reset',
@@ -110,184 +110,190 @@ def part_a(ctx):
     entries = [ADDRS[ds.choose(len(ADDRS))] for _ in range(n)]
     address = ';'.join(e[1] for e in entries)
     real = [e for e in entries if e[0]]
-    outcomes = [ds.pickw([('refuse', 3), ('late-fail', 2), ('accept', 4), ('dns-fail', 1), ('odd-fail', 0.5)])
-                for _ in real]
-    script = ds.pickw([('good', 5), ('reject-all', 2), ('close-after-k', 3),
-                       ('close-before-hello-reply', 2), ('hello-error', 2)])
-    ctx.config.update(part='A', address=address, outcomes=outcomes, script=script)
     node = Node('c1', serial_start=1 + ds.choose(2**31), known=dict(KNOWN_AT_IMPORT))
-    attempts = []        # [kind, factory, connector, resolved]
-    accepted = []
-    servers = []
     ctx.seams.home()     # synthetic user (cookie mechanism finds no keyring -> ERROR)
+    # the same process may connect to the same address string again (reconnect, retry): every
+    # connect() is judged on its own
+    rounds = 2 if ds.flag(0.3) else 1
+    for rnd in range(rounds):
+        if rnd:
+            sim.probe('A-second-connect-same-address')
+        outcomes = [ds.pickw([('refuse', 3), ('late-fail', 2), ('accept', 4), ('dns-fail', 1), ('odd-fail', 0.5)])
+                    for _ in real]
+        script = ds.pickw([('good', 5), ('reject-all', 2), ('close-after-k', 3),
+                           ('close-before-hello-reply', 2), ('hello-error', 2)])
+        ctx.config.update(part='A', address=address, outcomes=outcomes, script=script)
+        attempts = []        # [kind, factory, connector, resolved]
+        accepted = []
+        servers = []
 
-    def handler(kind, addr, factory):
-        idx = len(attempts)
-        c = Connector(idx)
-        attempts.append({'kind': kind, 'factory': factory, 'connector': c, 'done': False,
-                         'addr': addr})
-        sim.log('connect-attempt', idx, kind)
-        factory.doStart()
-        factory.startedConnecting(c)
-        return c
-    ctx.reactor.connect_handler = handler
+        def handler(kind, addr, factory):
+            idx = len(attempts)
+            c = Connector(idx)
+            attempts.append({'kind': kind, 'factory': factory, 'connector': c, 'done': False,
+                             'addr': addr})
+            sim.log('connect-attempt', idx, kind)
+            factory.doStart()
+            factory.startedConnecting(c)
+            return c
+        ctx.reactor.connect_handler = handler
 
-    d = sim.call(node, t_client.connect, ctx.reactor, address)
-    obs = Obs(sim, 'connect').watch(d)
-    hello_name = ':1.%d' % (1 + ds.choose(300))
-    close_k = 1 + ds.choose(120)
+        d = sim.call(node, t_client.connect, ctx.reactor, address)
+        obs = Obs(sim, 'connect').watch(d)
+        hello_name = ':1.%d' % (1 + ds.choose(300))
+        close_k = 1 + ds.choose(120)
 
-    def resolve(i):
-        a = attempts[i]
-        a['done'] = True
-        o = outcomes[i] if i < len(outcomes) else 'refuse'
-        a['outcome'] = o
-        if o != 'accept':
-            sim.fault('connect-refuse' if o == 'refuse' else 'connect-late-fail')
-            exc = {'refuse': tierror.ConnectionRefusedError(), 'late-fail': tierror.TimeoutError(),
-                   'dns-fail': tierror.DNSLookupError('no such host'),
-                   'odd-fail': OSError(13, 'Permission denied')}[o]
-            sim.call(node, a['factory'].clientConnectionFailed, a['connector'], Failure(exc))
-            return
-        accepted.append(i)
-        acc = list(MECHS)
-        if script == 'reject-all':
-            acc = []
-        elif ds.flag(0.4):
-            acc = [m for m in MECHS if ds.flag(0.5)] or [b'ANONYMOUS']
-        srv = RefSaslServer(acc, agree_fd=not ds.flag(0.4), keyring=None, hello=hello_name)
-        srv.close_after = close_k if script == 'close-after-k' else None
-        servers.append(srv)
-        if script in ('close-before-hello-reply', 'hello-error'):
-            def on_msg(m, srv=srv):
-                if m.mtype == rc.METHOD_CALL and m.fields.get(rc.F_MEMBER) == 'Hello':
-                    if script == 'hello-error':
-                        srv.serial += 1
-                        bodyless = ds.flag(0.4)
-                        e = rc.Msg(rc.ERROR, srv.serial,
-                                   {rc.F_REPLY_SERIAL: m.serial,
-                                    rc.F_ERROR_NAME: 'org.freedesktop.DBus.Error.LimitsExceeded'},
-                                   '' if bodyless else ds.pick(['s', 'is']),
-                                   [] if bodyless else ['too many connections'])
-                        if e.sig == 'is':
-                            e.body = [7, 'too many connections']
-                        srv.transport.write(e.encode())
-                    else:
+        def resolve(i):
+            a = attempts[i]
+            a['done'] = True
+            o = outcomes[i] if i < len(outcomes) else 'refuse'
+            a['outcome'] = o
+            if o != 'accept':
+                sim.fault('connect-refuse' if o == 'refuse' else 'connect-late-fail')
+                exc = {'refuse': tierror.ConnectionRefusedError(), 'late-fail': tierror.TimeoutError(),
+                       'dns-fail': tierror.DNSLookupError('no such host'),
+                       'odd-fail': OSError(13, 'Permission denied')}[o]
+                sim.call(node, a['factory'].clientConnectionFailed, a['connector'], Failure(exc))
+                return
+            accepted.append(i)
+            acc = list(MECHS)
+            if script == 'reject-all':
+                acc = []
+            elif ds.flag(0.4):
+                acc = [m for m in MECHS if ds.flag(0.5)] or [b'ANONYMOUS']
+            srv = RefSaslServer(acc, agree_fd=not ds.flag(0.4), keyring=None, hello=hello_name)
+            srv.close_after = close_k if script == 'close-after-k' else None
+            servers.append(srv)
+            if script in ('close-before-hello-reply', 'hello-error'):
+                def on_msg(m, srv=srv):
+                    if m.mtype == rc.METHOD_CALL and m.fields.get(rc.F_MEMBER) == 'Hello':
+                        if script == 'hello-error':
+                            srv.serial += 1
+                            bodyless = ds.flag(0.4)
+                            e = rc.Msg(rc.ERROR, srv.serial,
+                                       {rc.F_REPLY_SERIAL: m.serial,
+                                        rc.F_ERROR_NAME: 'org.freedesktop.DBus.Error.LimitsExceeded'},
+                                       '' if bodyless else ds.pick(['s', 'is']),
+                                       [] if bodyless else ['too many connections'])
+                            if e.sig == 'is':
+                                e.body = [7, 'too many connections']
+                            srv.transport.write(e.encode())
+                        else:
+                            srv.transport.loseConnection()
+                        return True
+                    return False
+                srv.on_message = on_msg
+            if srv.close_after is not None:
+                orig = srv.dataReceived
+
+                def dr(data, srv=srv, orig=orig):
+                    if len(srv.received) + len(data) >= srv.close_after:
+                        srv.received += data
                         srv.transport.loseConnection()
-                    return True
-                return False
-            srv.on_message = on_msg
-        if srv.close_after is not None:
-            orig = srv.dataReceived
+                        return
+                    orig(data)
+                srv.dataReceived = dr
+            proto = sim.call(node, a['factory'].buildProtocol, net.FakeAddress('srv'))
+            conn = net.Connection(sim, 'k%d' % i, node, None, unix=(a['kind'] == 'unix'))
+            a['conn'] = conn
+            conn.attach(proto, srv)
 
-            def dr(data, srv=srv, orig=orig):
-                if len(srv.received) + len(data) >= srv.close_after:
-                    srv.received += data
-                    srv.transport.loseConnection()
-                    return
-                orig(data)
-            srv.dataReceived = dr
-        proto = sim.call(node, a['factory'].buildProtocol, net.FakeAddress('srv'))
-        conn = net.Connection(sim, 'k%d' % i, node, None, unix=(a['kind'] == 'unix'))
-        a['conn'] = conn
-        conn.attach(proto, srv)
+        def extra():
+            ops = []
+            for i, a in enumerate(attempts):
+                if not a['done']:
+                    ops.append(('resolve%d' % i, lambda i=i: resolve(i)))
+            faults = []
+            for a in attempts:
+                c = a.get('conn')
+                if c is not None and c.a.state == net.OPEN and not c.a.broken:
+                    def rst(c=c):
+                        sim.fault('reset')
+                        c.reset(keep_ab=ds.choose(len(c.pipes[0].buf) + 1),
+                                keep_ba=ds.choose(len(c.pipes[1].buf) + 1))
+                    faults.append(('reset', rst))
+            return {'op': ops, 'fault': faults}
 
-    def extra():
-        ops = []
-        for i, a in enumerate(attempts):
-            if not a['done']:
-                ops.append(('resolve%d' % i, lambda i=i: resolve(i)))
-        faults = []
-        for a in attempts:
-            c = a.get('conn')
-            if c is not None and c.a.state == net.OPEN and not c.a.broken:
-                def rst(c=c):
-                    sim.fault('reset')
-                    c.reset(keep_ab=ds.choose(len(c.pipes[0].buf) + 1),
-                            keep_ba=ds.choose(len(c.pipes[1].buf) + 1))
-                faults.append(('reset', rst))
-        return {'op': ops, 'fault': faults}
+        def invariant():
+            check_no_exceptions(sim, 'C09')
+            if len(obs.fired) > 1:
+                raise Violation('C09/connect-fired-twice', 'twice', 'connect() Deferred fired %d times'
+                                % len(obs.fired))
+            if len(attempts) > len(real):
+                raise Violation('C09/attempt-count', 'too many', '%d attempts for %d usable addresses'
+                                % (len(attempts), len(real)))
+            for i, a in enumerate(attempts):
+                if a['kind'] != real[i][0]:
+                    raise Violation('C09/attempt-order', 'kind', 'attempt %d is %s, address list has %s'
+                                    % (i, a['kind'], real[i][0]))
+                want = expected_address(real[i][1])
+                if want is not None and a['addr'] != want:
+                    raise Violation('C09/attempt-address', 'entry %s after %s' % (
+                        real[i][1].split('=')[0], real[i - 1][1].split('=')[0] if i else 'none'),
+                        'attempt %d for address entry %r connects to %r, expected %r'
+                        % (i, real[i][1], a['addr'], want))
+            if accepted and len(attempts) > accepted[0] + 1:
+                raise Violation('C09/attempt-after-reachable', 'later address tried',
+                                'address %d was tried after address %d had been reachable'
+                                % (len(attempts) - 1, accepted[0]))
+            open_attempts = [a for a in attempts if not a['done']]
+            if len(open_attempts) > 1:
+                raise Violation('C09/attempt-order', 'concurrent', 'two addresses tried concurrently')
 
-    def invariant():
-        check_no_exceptions(sim, 'C09')
-        if len(obs.fired) > 1:
-            raise Violation('C09/connect-fired-twice', 'twice', 'connect() Deferred fired %d times'
-                            % len(obs.fired))
-        if len(attempts) > len(real):
-            raise Violation('C09/attempt-count', 'too many', '%d attempts for %d usable addresses'
-                            % (len(attempts), len(real)))
-        for i, a in enumerate(attempts):
-            if a['kind'] != real[i][0]:
-                raise Violation('C09/attempt-order', 'kind', 'attempt %d is %s, address list has %s'
-                                % (i, a['kind'], real[i][0]))
-            want = expected_address(real[i][1])
-            if want is not None and a['addr'] != want:
-                raise Violation('C09/attempt-address', 'entry %s after %s' % (
-                    real[i][1].split('=')[0], real[i - 1][1].split('=')[0] if i else 'none'),
-                    'attempt %d for address entry %r connects to %r, expected %r'
-                    % (i, real[i][1], a['addr'], want))
-        if accepted and len(attempts) > accepted[0] + 1:
-            raise Violation('C09/attempt-after-reachable', 'later address tried',
-                            'address %d was tried after address %d had been reachable'
-                            % (len(attempts) - 1, accepted[0]))
-        open_attempts = [a for a in attempts if not a['done']]
-        if len(open_attempts) > 1:
-            raise Violation('C09/attempt-order', 'concurrent', 'two addresses tried concurrently')
-
-    invariant()
-    sched = Scheduler(ctx)
-    sched.run(400, extra, invariant)
-    ok = sched.drain(300, extra, invariant)
-    sim.advance(200.0)
-    invariant()
-    # ---- oracle --------------------------------------------------------------------
-    res = obs.fired[0] if obs.fired else None
-    kinds = tuple(a.get('outcome', '?') for a in attempts)
-    sim.state(('A', kinds, script, res[0] if res else 'never'))
-    if not real:
-        sim.probe('A-no-address')
-    elif not accepted:
-        sim.probe('A-all-refused')
-    elif accepted[0] > 0:
-        sim.probe('A-second-address-used')
-    if not ok or res is None:
-        if not accepted:
-            why = 'no address reachable'
-        else:
-            srv = servers[0]
-            if not srv.begin_seen:
-                why = 'transport closed / authentication refused before BEGIN'
-                sim.probe('A-closed-during-auth')
-            elif not any(getattr(m, 'mtype', 0) == 1 for m in srv.messages):
-                why = 'closed after authentication before Hello was read'
+        invariant()
+        sched = Scheduler(ctx)
+        sched.run(400, extra, invariant)
+        ok = sched.drain(300, extra, invariant)
+        sim.advance(200.0)
+        invariant()
+        # ---- oracle --------------------------------------------------------------------
+        res = obs.fired[0] if obs.fired else None
+        kinds = tuple(a.get('outcome', '?') for a in attempts)
+        sim.state(('A', kinds, script, res[0] if res else 'never'))
+        if not real:
+            sim.probe('A-no-address')
+        elif not accepted:
+            sim.probe('A-all-refused')
+        elif accepted[0] > 0:
+            sim.probe('A-second-address-used')
+        if not ok or res is None:
+            if not accepted:
+                why = 'no address reachable'
             else:
-                why = 'closed before the Hello reply'
-        raise Violation('C09/connect-never-fires', why,
-                        'connect(%r) never fired its Deferred: attempts %r, script %s, '
-                        'faults %r; %s' % (address, kinds, script, dict(sim.faults), why))
-    if res[0] == 'ok':
-        p = res[1]
-        if not accepted:
-            raise Violation('C09/connected-without-endpoint', 'ok', 'connected with no reachable address')
-        if p.busName != hello_name:
-            raise Violation('C09/bus-name', 'busName', 'busName %r, Hello reply said %r'
-                            % (p.busName, hello_name))
-        sim.probe('A-connected')
-    else:
-        if accepted and script == 'good' and not sim.faults.get('reset'):
-            srv = servers[0]
-            if srv.accept & {b'EXTERNAL', b'ANONYMOUS'}:
-                raise Violation('C09/connect-failed-on-good-server', type(res[1].value).__name__,
-                                'first reachable address had a well-behaved server but connect() '
-                                'failed with %r' % (res[1].value,))
-        if accepted:
-            srv = servers[0]
-            if script == 'hello-error':
-                sim.probe('A-hello-error')
-            elif script == 'reject-all':
-                sim.probe('A-auth-refused')
-            elif script == 'close-before-hello-reply':
-                sim.probe('A-closed-before-hello-reply')
+                srv = servers[0]
+                if not srv.begin_seen:
+                    why = 'transport closed / authentication refused before BEGIN'
+                    sim.probe('A-closed-during-auth')
+                elif not any(getattr(m, 'mtype', 0) == 1 for m in srv.messages):
+                    why = 'closed after authentication before Hello was read'
+                else:
+                    why = 'closed before the Hello reply'
+            raise Violation('C09/connect-never-fires', why,
+                            'connect(%r) never fired its Deferred: attempts %r, script %s, '
+                            'faults %r; %s' % (address, kinds, script, dict(sim.faults), why))
+        if res[0] == 'ok':
+            p = res[1]
+            if not accepted:
+                raise Violation('C09/connected-without-endpoint', 'ok', 'connected with no reachable address')
+            if p.busName != hello_name:
+                raise Violation('C09/bus-name', 'busName', 'busName %r, Hello reply said %r'
+                                % (p.busName, hello_name))
+            sim.probe('A-connected')
+        else:
+            if accepted and script == 'good' and not sim.faults.get('reset'):
+                srv = servers[0]
+                if srv.accept & {b'EXTERNAL', b'ANONYMOUS'}:
+                    raise Violation('C09/connect-failed-on-good-server', type(res[1].value).__name__,
+                                    'first reachable address had a well-behaved server but connect() '
+                                    'failed with %r' % (res[1].value,))
+            if accepted:
+                srv = servers[0]
+                if script == 'hello-error':
+                    sim.probe('A-hello-error')
+                elif script == 'reject-all':
+                    sim.probe('A-auth-refused')
+                elif script == 'close-before-hello-reply':
+                    sim.probe('A-closed-before-hello-reply')
     check_no_logged_errors(ctx, 'C09')
 
 
